@@ -350,6 +350,10 @@ def rule_surplus(ctx: Ctx) -> None:
     ctx.tri("4-surplus", rn, rj[0]["node"] if rj else rn.node, bool(rj), not rj, "surplus keywords raise UnusedParametersError", "run() never raises UnusedParametersError: surplus (mistyped) keywords are silently ignored", key="unused-test")
     if rj:
         conds = " && ".join(rj[0]["conds"])
+        # through the locals the condition is computed from (`unused = [... if name not in used_parameters]; if unused: raise`)
+        from ..flow import dependence_text
+
+        conds = conds + " ;; " + " ;; ".join(dependence_text(rn.node, t_) for t_, _truth in rj[0]["tests"])
         weak = "used_parameters" not in conds
         ctx.tri("4-surplus", rn, rj[0]["node"], "used_parameters" in conds and ("-" in conds or "difference" in conds or "not in" in conds or "<=" in conds or "issubset" in conds), weak,
                 "the rejection compares the supplied keywords with the parameters that were used", f"the rejection `{conds[:80]}` does not look at the used parameters", f"condition `{conds[:60]}`", key="unused-cond")
